@@ -16,6 +16,10 @@ GROUP = dict(
     assumptions=['ConcurrentFixedSwissTable is abstracted to (n elements, bucket count) with an abstract element order (executable stubs)',
                  'quiescent state: every table before the last one is full, except a default-constructed placeholder head'],
     jobs=[
+        dict(id='C18.chain.begin', enforce='Set_begin__void', loops=True, backend='cadical', defines=['VF_CHAIN 1']),
+        dict(id='C18.chain.next', enforce='Set_Iterator_L_0_R_op_inc', loops=True, backend='cadical', defines=['VF_CHAIN 1']),
+        dict(id='C18.chain.total_size', enforce='Set_total_size', loops=True, backend='cadical', defines=['VF_CHAIN 1']),
+        dict(id='C18.chain.size', enforce='Set_size', replace=['Set_total_size'], backend='cadical', defines=['VF_CHAIN 1']),
         dict(id='C18.iterate.bounded', harness='h_iterate_bounded', unwind=9, bounded='chain <= 3 tables, <= 2 elements per table; unwind 9'),
         dict(id='C18.copy.bounded', harness='h_copy_bounded', unwind=9, object_bits=10, bounded='source chain <= 3 tables with abstract bucket counts 1/2/4 (every fill growth can produce); unwind 9'),
         dict(id='C18.size.bounded', harness='h_size_bounded', unwind=5, bounded='chain <= 3 tables (16/32/64 buckets), any fill of the last table; unwind 5'),
